@@ -201,20 +201,44 @@ CLAIMED = {
             "each run); python str modelled as Unicode scalar lists.",
             "§5 C11"),
     "C02": ("proof",
-            "Lean 4 theorems (sign/skip policy = authorisation rule for all flag combinations; digest dispatch per script type) + independent Lean signature verification against the consensus digest",
+            "Lean 4 theorems about an executable model of the whole of PSBT.sign_with / PSBTView.sign_with (frame, authorised + controlled key, validity relative to signer laws, count, completeness; policy and digest dispatch) + whole-PSBT correspondence with real crypto + independent Lean signature verification against the consensus digest",
             "Props/C02.lean proves for every caller flag, every per-input flag (all naturals) and both input kinds that an input is "
             "signed exactly when its flag is authorised (ALL/DEFAULT interchangeable, None = whatever the PSBT requests), that it is "
             "signed with the input's effective flag, that a caller authorising ALL/DEFAULT never yields a weaker flag, and that the "
             "digest algorithm and BIP143 script code chosen for P2PKH, P2SH, P2WPKH, P2SH-P2WPKH, P2WSH, P2SH-P2WSH and P2TR scopes "
-            "are the consensus ones (digests themselves: C01). Partial by design: that every signature added verifies under the key "
-            "it is filed under against the consensus digest of exactly that PSBT/input/flag, that the signed set is exactly the "
-            "involved keys, count = number added and nothing else changes are decided on every run — not proved — by signing "
-            "generated wallets' PSBTs with embit (in memory and through PSBTView) and checking each signature with the independent "
-            "Lean ECDSA/BIP340 verifier against the Lean consensus digest, and the signed set against the set derived from how the "
-            "wallet was built.",
+            "are the consensus ones. Props/C02X.lean proves, about Model/SignWith.lean (PSBT.sign_with: loop over inputs, fingerprint / "
+            "origin-prefix / derived-key matching of BIP32 and taproot derivation entries, the signer's own key in the script, taproot "
+            "key path with tweak and script-path leaves, descriptor = all its private keys, the counter with its set of signed slots; "
+            "after fixes c02x-01 (commit 0b9895a) and c02x-02) and "
+            "Model/SignWithView.lean (PSBTView.sign_with, after fix c02x-03), for ALL PSBTs, signers (key, HD key, descriptor key with / "
+            "without origin, descriptor), authorised flags and ALL environments (BIP32 derivation, public keys, hashes, taproot tweak, "
+            "ECDSA and Schnorr signing and Python's set iteration orders are parameters): (a) frame - globals, outputs, number of "
+            "inputs and every input field except partial_sigs / taproot_sigs / final_scriptwitness are unchanged, no map entry "
+            "disappears, old keys keep their order, a slot not written keeps its content (an existing entry under a key that signs IS "
+            "replaced - witness theorem); (b) every new slot content was written for a key of the signer on an input whose flag the "
+            "policy authorises (C02's rule) by a key the signer controls there (own key in script / matching derivation entry whose path "
+            "derives exactly that point / tweaked key in the scriptPubKey / key in a leaf script); (c) under SigLaws (a signature "
+            "verifies under the signer's public key - what C07 proves of the concrete signers relative to EcLaws) every new entry "
+            "verifies under the key it is filed under against PSBT.sighash of the PSBT as handed in, flag byte appended (omitted for "
+            "taproot DEFAULT), and that digest is the BIP341 / BIP143 / legacy consensus digest (composition with C01 and C02's "
+            "dispatch); (d) the counter equals the number of DISTINCT slots (input, key[, leaf]) the call files a signature under "
+            "(count_eq_slots, full; a slot written twice in one call counts once) and, under the explicit hypothesis that no write "
+            "stores a value its slot held before the call, the number of slots whose content "
+            "differs (count_eq_added; witness: re-signing returns n and adds nothing - the behaviour the repo tests pin, not a finding); "
+            "(e) every key the signer controls on an authorised input has an entry afterwards. The stream variant is proved "
+            "to sign exactly the scopes the in-memory variant produces, to return the same counter and to raise iff it does "
+            "(view_eq_memory); the bytes written are the signature fields of those scopes, and (a)-(e) are also proved of it directly. "
+            "The key-validity hypothesis of (c) is proved of every PSBT PSBT.parse accepts. Correspondence: sign.run / "
+            "sign.view run the models over the driver's concrete secp256k1 / SHA-256 / RIPEMD-160 / HMAC-SHA512, so the WHOLE resulting "
+            "PSBT / signature stream (signature bytes included) and the count are compared with embit on generated wallets (9 script "
+            "types) and adversarial variants (existing signatures, re-signing, wrong-parity / duplicated / foreign / wrong-path "
+            "derivation entries, missing utxo, uncompressed keys, descriptors holding one key twice or mixing public and private keys). "
+            "Not proved: SigLaws for the concrete signers as a composed theorem (each added signature is verified on every run by the "
+            "independent Lean ECDSA/BIP340 verifier against the Lean consensus digest instead). Three defects found and repaired "
+            "(fixes/c02x-01..03).",
             "Trusted: Lean kernel + propext/Quot.sound/Classical.choice; the Lean reference secp256k1/SHA-256 and verifiers "
-            "(cross-validated against embit on every run); harness wallet builder and expected-set computation; unforgeability is "
-            "not claimed.",
+            "(cross-validated against embit on every run); harness wallet builder and expected-set computation; the type-level "
+            "precondition that the signer is a private key object of the modelled kinds; unforgeability is not claimed.",
             "§5 C02"),
     "C05": ("proof",
             "Lean 4 theorems (view offset arithmetic = encoding layout; scope skipping; exact-key lookup; view = parsed PSBT for every accepted byte string in every reader mode; write_to = merge-then-compress in memory, byte level and parse level) + correspondence + view-vs-memory predicate",
